@@ -404,4 +404,29 @@ def r4_7(ctx: Ctx) -> RuleResult:
     return rr
 
 
-RULES = [r4_1, r4_2, r4_3, r4_4, r4_5, r4_6, r4_7]
+def r4_8(ctx: Ctx, rule: str = "R4.8", modules: tuple = ("jsonpath.pointer",), floor: int = 20) -> RuleResult:  # type: ignore[type-arg]
+    """What a pointer resolves to depends on the pointer text, the options and the document alone: no function of
+    the module stores into a container that outlives the call (a class-level or module-level table) under a key that
+    leaves out one of the arguments it reads - a memo keyed by the pointer text alone hands `unicode_escape=False`
+    the tokens decoded for `unicode_escape=True`."""
+    from .common import shared_memo_stores
+
+    rr = RuleResult(rule, "no result is remembered across calls under a key that leaves out an argument", floor=floor)
+    for fn in ctx.repo.functions.values():
+        if not any(fn.module.name == m or fn.module.name.startswith(m + ".") for m in modules):
+            continue
+        found = shared_memo_stores(ctx, fn)
+        if not found:
+            rr.ok(fn.loc(), f"{fn.qualname}: nothing stored in a table that outlives the call")
+        for node, cont, missing in found:
+            if missing:
+                rr.bad(fn, node, f"{fn.qualname} stores into `{cont}`, which outlives the call, under a key that does not mention {missing}: a later call "
+                       "with other values for them is answered with what was computed for these", construct=f"{cont}[...] keyed without {', '.join(missing)}")
+            else:
+                rr.bad(fn, node, f"{fn.qualname} writes into `{cont}`, a container of the class (or module) that every instance and every call shares, "
+                       "without consulting it first: what one environment / call stores there, all the others read",
+                       construct=f"{cont}: shared container written at run time")
+    return rr
+
+
+RULES = [r4_1, r4_2, r4_3, r4_4, r4_5, r4_6, r4_7, r4_8]
